@@ -16,6 +16,7 @@ import (
 
 	"gorm.io/driver/sqlite"
 	"gorm.io/gorm"
+	"gorm.io/gorm/clause"
 	"gorm.io/gorm/logger"
 
 	cgen "verifharness/cmd/c01/cgen"
@@ -43,6 +44,7 @@ type XOp struct {
 type Input struct {
 	Mode string      `json:"mode"` // config | session | tosql
 	Skip bool        `json:"skip"` // SkipDefaultTransaction
+	Carry bool       `json:"carry,omitempty"` // the chain is on the handle before DryRun / ToSQL is switched on
 	C01  *cgen.Input `json:"c01,omitempty"`
 	X    *XOp        `json:"x,omitempty"`
 }
@@ -65,16 +67,35 @@ type Observed struct {
 	Dry, Real Run
 }
 
-func runX(db *gorm.DB, x XOp) *gorm.DB {
+func threeDocs(x XOp) []Doc {
+	return []Doc{{Title: x.Title + "a"}, {Title: x.Title + "b"}, {Title: x.Title + "c"}}
+}
+
+// xBase: chain state the handle carries BEFORE DryRun is switched on (carry_* operations).
+func xBase(db *gorm.DB, x XOp) *gorm.DB {
+	if strings.HasPrefix(x.K, "carry_") {
+		return db.Model(&Doc{}).Where("title <> ?", x.Title).Order("id").Session(&gorm.Session{})
+	}
+	return db
+}
+
+// xFin: the rest of the operation.
+func xFin(db *gorm.DB, x XOp) *gorm.DB {
 	switch x.K {
 	case "create":
 		return db.Create(&Doc{Title: x.Title})
 	case "update":
 		return db.Model(&Doc{}).Where("id = ?", x.ID).Update("title", x.Title)
+	case "update_returning":
+		return db.Model(&Doc{}).Clauses(clause.Returning{}).Where("id = ?", x.ID).Update("title", x.Title)
 	case "delete":
 		return db.Delete(&Doc{}, x.ID)
+	case "delete_returning":
+		return db.Clauses(clause.Returning{}).Delete(&Doc{}, x.ID)
 	case "unscoped_delete":
 		return db.Unscoped().Delete(&Doc{}, x.ID)
+	case "unscoped_delete_returning":
+		return db.Unscoped().Clauses(clause.Returning{}).Delete(&Doc{}, x.ID)
 	case "find":
 		var d []Doc
 		return db.Where("title <> ?", x.Title).Find(&d)
@@ -93,13 +114,47 @@ func runX(db *gorm.DB, x XOp) *gorm.DB {
 		return res
 	case "save_existing", "save_missing", "save_new":
 		return db.Save(&Doc{ID: uint(x.ID), Title: x.Title})
+	case "carry_find":
+		var d []Doc
+		return db.Find(&d)
+	case "carry_first":
+		var d Doc
+		return db.First(&d)
+	case "carry_count":
+		var n int64
+		return db.Count(&n)
+	case "carry_update":
+		return db.Update("title", x.Title+"!")
+	case "batch_create":
+		docs := threeDocs(x)
+		return db.CreateInBatches(&docs, 2)
+	case "batchsize_create":
+		docs := threeDocs(x)
+		return db.Session(&gorm.Session{CreateBatchSize: 2}).Create(&docs)
 	}
 	panic("xop " + x.K)
 }
 
-func runOp(db *gorm.DB, in Input) *gorm.DB {
+func carries(in Input) bool {
+	return in.Carry && in.C01 != nil && in.C01.Fin.K != "raw" && in.C01.Fin.K != "exec"
+}
+
+func opBase(db *gorm.DB, in Input) *gorm.DB {
 	if in.X != nil {
-		return runX(db, *in.X)
+		return xBase(db, *in.X)
+	}
+	if carries(in) {
+		return cgen.NewGctx(db).Prefix(*in.C01).Session(&gorm.Session{})
+	}
+	return db
+}
+
+func opFin(db *gorm.DB, in Input) *gorm.DB {
+	if in.X != nil {
+		return xFin(db, *in.X)
+	}
+	if carries(in) {
+		return cgen.NewGctx(db).Finish(db, in.C01.Fin)
 	}
 	return cgen.NewGctx(db).Run(*in.C01)
 }
@@ -175,24 +230,25 @@ func capture(e env, f func() *gorm.DB) (r Run) {
 
 func runCase(e env, in Input) Observed {
 	var o Observed
+	skip := &gorm.Session{SkipDefaultTransaction: in.Skip}
 	switch in.Mode {
 	case "config":
-		o.Dry = capture(e, func() *gorm.DB { return runOp(e.dryCfg.Session(&gorm.Session{SkipDefaultTransaction: in.Skip}), in) })
+		o.Dry = capture(e, func() *gorm.DB { return opFin(opBase(e.dryCfg.Session(skip), in), in) })
 	case "session":
 		o.Dry = capture(e, func() *gorm.DB {
-			return runOp(e.real.Session(&gorm.Session{DryRun: true, SkipDefaultTransaction: in.Skip}), in)
+			return opFin(opBase(e.real.Session(skip), in).Session(&gorm.Session{DryRun: true, SkipDefaultTransaction: in.Skip}), in)
 		})
 	case "tosql":
 		o.Dry = capture(e, func() *gorm.DB {
 			var res *gorm.DB
-			e.real.Session(&gorm.Session{SkipDefaultTransaction: in.Skip}).ToSQL(func(tx *gorm.DB) *gorm.DB {
-				res = runOp(tx, in)
+			opBase(e.real.Session(skip), in).ToSQL(func(tx *gorm.DB) *gorm.DB {
+				res = opFin(tx, in)
 				return res
 			})
 			return res
 		})
 	}
-	o.Real = capture(e, func() *gorm.DB { return runOp(e.real.Session(&gorm.Session{SkipDefaultTransaction: in.Skip}), in) })
+	o.Real = capture(e, func() *gorm.DB { return opFin(opBase(e.real.Session(skip), in), in) })
 	return o
 }
 
@@ -203,11 +259,17 @@ func classify(in Input) (kind, fin string, ret bool) {
 		switch in.X.K {
 		case "create", "save_new":
 			return "OpCreate", fin, true
-		case "update":
+		case "batch_create", "batchsize_create":
+			return "OpCreate", "FBatch", true
+		case "update", "carry_update":
 			return "OpUpdate", fin, false
+		case "update_returning":
+			return "OpUpdate", fin, true
 		case "delete", "unscoped_delete": // a soft delete is an UPDATE text built and sent by the delete callbacks
 			return "OpDelete", fin, false
-		case "find", "first":
+		case "delete_returning", "unscoped_delete_returning":
+			return "OpDelete", fin, true
+		case "find", "first", "carry_find", "carry_first", "carry_count":
 			return "OpQuery", fin, false
 		case "rows":
 			return "OpRow", "FRows", false
@@ -287,7 +349,7 @@ func term(in Input, o Observed) string {
 }
 
 func shape(in Input) string {
-	s := in.Mode + fmt.Sprint(in.Skip) + "|"
+	s := in.Mode + fmt.Sprint(in.Skip, in.Carry) + "|"
 	if in.X != nil {
 		return s + "x:" + in.X.K
 	}
@@ -313,6 +375,7 @@ func main() {
 			Kind: kind, Shape: shape(in), Nontriv: stmts >= 1 && len(o.Dry.Vars) >= 1})
 		out.Count("mode", in.Mode)
 		out.Count("skip_default_transaction", fmt.Sprint(in.Skip))
+		out.Count("state_carried_by_handle", fmt.Sprint(in.Carry || (in.X != nil && strings.HasPrefix(in.X.K, "carry_"))))
 		out.Count("operation", k+"/"+fin)
 		out.Count("dry_driver_calls", fmt.Sprint(len(o.Dry.Log)))
 		out.Count("real_statements", fmt.Sprint(stmts))
@@ -365,12 +428,14 @@ func main() {
 	if a.N > 0 {
 		budget = a.N
 	}
-	xops := []string{"create", "update", "delete", "unscoped_delete", "find", "first", "rows", "save_existing", "save_missing", "save_new"}
+	xops := []string{"create", "update", "delete", "unscoped_delete", "find", "first", "rows", "save_existing", "save_missing", "save_new",
+		"update_returning", "delete_returning", "unscoped_delete_returning", "carry_find", "carry_first", "carry_count", "carry_update",
+		"batch_create", "batchsize_create"}
 	n := 0
 	for i := 0; i < budget; i++ {
 		in := Input{Mode: lib.Pick(r, []string{"config", "session", "tosql"}), Skip: r.Chance(1, 3)}
 		kind := "main"
-		if r.Chance(1, 4) {
+		if r.Chance(1, 3) {
 			n++
 			k := xops[n%len(xops)]
 			id := int64(r.Range(1, 2))
@@ -387,9 +452,10 @@ func main() {
 			c := g.Input()
 			c.NoExec = !g.Exec()
 			in.C01 = &c
+			in.Carry = r.Chance(1, 3)
 		}
 		add(kind, in)
 	}
-	out.Extra["rule"] = "cases = operation x DryRun mode {Config.DryRun, Session{DryRun}, ToSQL} x SkipDefaultTransaction {false,true}; operation = a C01 chain+finisher on Item (Find/First/Take/Last/Count/Pluck, Update/Updates, Delete, Create from struct/slice/map/[]map incl. OnConflict, Exec, Raw+Scan) or an operation on Doc (soft delete, tracked update time, pinned NowFunc): Create, Update, soft Delete, Unscoped Delete, Find, First, Rows, Save of an existing / missing / new record; both runs start from the same re-seeded tables on identical SQLite handles behind the recording driver; statements SQLite rejects are kept (the real run then rolls back); distinct = distinct (mode, skip, operation skeleton); non-trivial = the real run sends at least one statement and the dry run exposes at least one bound value"
+	out.Extra["rule"] = "cases = operation x DryRun mode {Config.DryRun, Session{DryRun}, ToSQL} x SkipDefaultTransaction {false,true}; operation = a C01 chain+finisher on Item (Find/First/Take/Last/Count/Pluck, Update/Updates, Delete, Create from struct/slice/map/[]map incl. OnConflict, Exec, Raw+Scan) or an operation on Doc (soft delete, tracked update time, pinned NowFunc): Create, Update, soft Delete, Unscoped Delete, Find, First, Rows, Save of an existing / missing / new record, Update / soft Delete / Unscoped Delete with clause.Returning{}, Find / First / Count / Update finishing a handle that already carries Model+Where+Order when DryRun or ToSQL is switched on (also a third of the C01 chains), CreateInBatches and Create with CreateBatchSize over more rows than the batch size; both runs start from the same re-seeded tables on identical SQLite handles behind the recording driver; statements SQLite rejects are kept (the real run then rolls back); distinct = distinct (mode, skip, operation skeleton); non-trivial = the real run sends at least one statement and the dry run exposes at least one bound value"
 	lib.Must(out.Flush())
 }
